@@ -170,7 +170,7 @@ def seq_is_empty(c):
        r"|^<std::string::String as std::borrow::Borrow<str>>::borrow$|^<std::vec::Vec<.*> as std::borrow::Borrow(Mut)?<\[.*\]>>::borrow")
 def seq_view(c):
     src = c.deref(c.args[0])
-    return [(c.st, Seq(c.seq_len(c.args[0]), None, None, src.view if isinstance(src, Seq) else None))]
+    return [(c.st, Seq(c.seq_len(c.args[0]), None, None, src.view if isinstance(src, Seq) else None, src.src if isinstance(src, Seq) else None))]
 
 
 @model(r"^std::slice::<impl \[.*\]>::to_vec$|^std::slice::<impl \[.*\]>::into_vec|^std::str::<impl str>::to_owned$|^std::str::<impl std::borrow::ToOwned for str>::to_owned$|^std::slice::<impl std::borrow::ToOwned for \[.*\]>::to_owned$|^<str as std::borrow::ToOwned>::to_owned$|^<\[.*\] as std::borrow::ToOwned>::to_owned$"
@@ -180,7 +180,8 @@ def seq_view(c):
        r"|^std::string::String::from_utf8_unchecked|^<std::vec::Vec<.*> as std::convert::From<&\[.*\]>>::from$|^<std::boxed::Box<\[.*\]> as std::convert::From<(&\[.*\]|std::vec::Vec<.*>)>>::from$"
        r"|^std::array::<impl std::clone::Clone for \[.*\]>::clone$|^<\[.*; \d+\] as std::clone::Clone>::clone$|^std::slice::<impl \[.*\]>::into_boxed")
 def seq_copy(c):
-    return [(c.st, Seq(c.seq_len(c.args[0])))]
+    src = c.deref(c.args[0])
+    return [(c.st, Seq(c.seq_len(c.args[0]), None, None, None, src.content() if isinstance(src, Seq) else None))]
 
 
 @model(r"^<&\[u8\] as std::convert::Into<std::boxed::Box<\[u8\]>>>::into$|^<std::vec::Vec<u8> as std::convert::Into<std::boxed::Box<\[u8\]>>>::into$|^<&str as std::convert::Into<std::string::String>>::into$")
@@ -238,8 +239,40 @@ def vec_split_off(c):
     ln = c.seq_len(c.args[0])
     at = c.num(c.args[1], 1)
     c.require_ge(ln - at, "split_off", "at <= len")
-    _set_len(c, c.args[0], at, keep_items=True)
-    return [(c.st, Seq(ln - at))]
+    cur = c.deref(c.args[0])
+    cp = cur.content() if isinstance(cur, Seq) and cur.content() is not None and cur.content()[0] != "cat" else None
+    if isinstance(c.args[0], Ref):
+        c.it.store(c.st, c.args[0].cell, c.args[0].path, Seq(at, None, cur.items if isinstance(cur, Seq) else None, None, cp))
+        c.it.note_mutation(c.st, c.args[0], "split_off")
+    return [(c.st, Seq(ln - at, None, None, None, (cp[0], cp[1] + at) if cp else None))]
+
+
+@model(r"^std::vec::Vec::<.*>::drain::<std::ops::(RangeTo|Range|RangeFrom|RangeFull)<usize>>$")
+def vec_drain(c):
+    ln = c.seq_len(c.args[0])
+    km = re.search(r"drain::<std::ops::(\w+)<usize>>$", c.name)
+    lo, hi = range_bounds(c, c.args[1], km.group(1))
+    lo = lo if lo is not None else Lin.const(0)
+    hi = hi if hi is not None else ln
+    c.require_ge(hi - lo, "drain:order", "drain: start <= end")
+    c.require_ge(ln - hi, "drain:end", "drain: end <= len")
+    cur = c.deref(c.args[0])
+    cp = cur.content() if isinstance(cur, Seq) and cur.content() is not None and cur.content()[0] != "cat" else None
+    front = c.st.sys.entails_eq(lo)
+    if isinstance(c.args[0], Ref):
+        newsrc = (cp[0], cp[1] + hi) if (cp and front) else None
+        c.it.store(c.st, c.args[0].cell, c.args[0].path, Seq(ln - hi + lo, None, None, None, newsrc))
+        c.it.note_mutation(c.st, c.args[0], "drain")
+    return [(c.st, Iter(hi - lo, False, "drain", None, Seq(Lin.const(0), None, None, None, (cp[0], cp[1] + lo) if cp else None)))]
+
+
+@model(r"^<std::vec::Drain<.*> as std::iter::Iterator>::collect::<std::vec::Vec<.*>>$")
+def drain_collect(c):
+    v = c.args[0]
+    if isinstance(v, Iter) and v.kind == "drain":
+        sr = v.items.src if isinstance(v.items, Seq) else None
+        return [(c.st, Seq(v.len, None, None, None, sr))]
+    return [(c.st, c.top_ret())]
 
 
 @model(r"^std::vec::Vec::<.*>::truncate$")
@@ -264,13 +297,19 @@ def vec_extend(c):
     n = c.it.fresh_num(c.st, 0, ISIZE_MAX, "len")
     c.st.sys.add_le(ln, n.e)
     other = c.deref(c.args[1]) if len(c.args) > 1 else None
+    cat = None
     if isinstance(other, Seq):
         c.st.sys.add_eq(n.e - ln - other.len)
+        cur = c.deref(c.args[0])
+        if isinstance(cur, Seq) and cur.content() is not None and other.content() is not None:
+            cat = ("cat", cur.content(), cur.len, other.content())
     for a in c.args[1:]:
         c.escape(a)
     if "ops::Add<" in c.name:
         return [(c.st, Seq(n.e))]
-    _set_len(c, c.args[0], n.e)
+    if isinstance(c.args[0], Ref):
+        c.it.store(c.st, c.args[0].cell, c.args[0].path, Seq(n.e, None, None, None, cat))
+        c.it.note_mutation(c.st, c.args[0], "extend")
     return [(c.st, Struct())]
 
 
@@ -377,7 +416,8 @@ def index(c):
         what = "%s index" % kind
         src = c.deref(c.args[0])
         vw = src.view if isinstance(src, Seq) else None
-        sub = lambda n_, o_: Seq(n_, None, None, (vw[0], vw[1] + o_) if vw is not None else None)
+        cp = src.src if isinstance(src, Seq) and src.src is not None and src.src[0] != "cat" else None
+        sub = lambda n_, o_: Seq(n_, None, None, (vw[0], vw[1] + o_) if vw is not None else None, (cp[0], cp[1] + o_) if (cp is not None and vw is None) else None)
         if lo is not None and hi is not None:
             c.require_ge(hi - lo, "index:order", "%s: start <= end" % what)
             c.require_ge(ln - hi, "index:end", "%s: end <= len" % what)
@@ -395,6 +435,55 @@ def index(c):
         return [(c.st, c.top_ret())]
     c.oblige(False, "index:unknown", "index kind %s" % idx, "unmodelled index type")
     return None
+
+
+GETR = re.compile(r"^core::slice::<impl \[.*\]>::get(_mut)?::<(?P<idx>.*)>$")
+
+
+@model(GETR.pattern)
+def slice_get(c):
+    """checked indexing: Some(sub-slice / element) iff in bounds"""
+    m = GETR.match(c.name)
+    idx = m.group("idx")
+    ln = c.seq_len(c.args[0])
+    src = c.deref(c.args[0])
+    km = re.match(r"^std::ops::(Range|RangeFrom|RangeTo|RangeFull|RangeInclusive|RangeToInclusive)(<.*>)?$", idx)
+    none = Enum(OPTION, {0: Struct()})
+    if km:
+        lo, hi = range_bounds(c, c.args[1], km.group(1))
+        lo0 = lo if lo is not None else Lin.const(0)
+        hi0 = hi if hi is not None else ln
+        s_ok = c.st.copy()
+        s_ok.sys.add_ge(hi0 - lo0)
+        s_ok.sys.add_ge(ln - hi0)
+        out = []
+        vs = set(ln.t) | set(hi0.t) | set(lo0.t)
+        if not s_ok.sys.bottom and c.it.feasible_wrt(s_ok, vs):
+            vw = src.view if isinstance(src, Seq) else None
+            cp = src.src if isinstance(src, Seq) and src.src is not None and src.src[0] != "cat" and vw is None else None
+            sub = Seq(hi0 - lo0, None, None, (vw[0], vw[1] + lo0) if vw else None, (cp[0], cp[1] + lo0) if cp else None)
+            out.append((s_ok, Enum(OPTION, {1: Struct({0: sub})})))
+        if not (c.st.sys.entails_ge(hi0 - lo0) and c.st.sys.entails_ge(ln - hi0)):
+            s_no = c.st.copy()
+            if c.st.sys.entails_ge(hi0 - lo0):
+                s_no.sys.add_ge(hi0 - ln - 1)      # out of bounds at the end
+            if not s_no.sys.bottom and c.it.feasible_wrt(s_no, vs):
+                out.append((s_no, none))
+        return out
+    if idx == "usize":
+        i = c.num(c.args[1], 1)
+        s_ok = c.st.copy()
+        s_ok.sys.add_ge(ln - i - 1)
+        s_no = c.st.copy()
+        s_no.sys.add_ge(i - ln)
+        out = []
+        if not s_ok.sys.bottom and c.it.feasible_wrt(s_ok, set(ln.t) | set(i.t)):
+            r = c.top_ret(s_ok)
+            out.append((s_ok, r.only(1) if isinstance(r, Enum) and 1 in r.v else r))
+        if not s_no.sys.bottom and c.it.feasible_wrt(s_no, set(ln.t) | set(i.t)):
+            out.append((s_no, none))
+        return out
+    return [(c.st, c.top_ret())]
 
 
 @model(r"^core::slice::<impl \[.*\]>::(copy_from_slice|clone_from_slice)$")
@@ -415,7 +504,8 @@ def split_at(c):
     c.require_ge(ln - mid, "split_at", "mid <= len")
     src = c.deref(c.args[0])
     vw = src.view if isinstance(src, Seq) else None
-    return [(c.st, Struct({0: Seq(mid, None, None, vw), 1: Seq(ln - mid, None, None, (vw[0], vw[1] + mid) if vw else None)}))]
+    cp = src.src if isinstance(src, Seq) and src.src is not None and src.src[0] != "cat" and vw is None else None
+    return [(c.st, Struct({0: Seq(mid, None, None, vw, cp), 1: Seq(ln - mid, None, None, (vw[0], vw[1] + mid) if vw else None, (cp[0], cp[1] + mid) if cp else None)}))]
 
 
 @model(r"^core::slice::<impl \[.*\]>::(fill|reverse|sort|sort_unstable|swap_with_slice)$")
@@ -427,7 +517,7 @@ def slice_fill(c):
     return [(c.st, Struct())]
 
 
-@model(r"^core::slice::<impl \[.*\]>::(contains|starts_with|ends_with)$|^core::slice::<impl \[.*\]>::(first|last|get|get_mut|iter\(\))$")
+@model(r"^core::slice::<impl \[.*\]>::(contains|starts_with|ends_with)$|^core::slice::<impl \[.*\]>::(first|last|iter\(\))$")
 def slice_query(c):
     return [(c.st, c.top_ret())]
 
@@ -526,6 +616,17 @@ def byteorder_rw(c):
     ln = c.seq_len(c.args[0])
     c.require_ge(ln - n, "byteorder:%s" % m.group(1), "buffer holds at least %d bytes" % n)
     if m.group(1) == "read":
+        d = c.deref(c.args[0])
+        w = d.content() if isinstance(d, Seq) else None
+        if w is not None and w[0] != "cat":
+            # the same bytes read twice give the same number: one variable per (buffer, offset, width)
+            name = "rd%d@%s+%r" % (n * 8, w[0], c.st.sys.reduce(w[1]))
+            t = c.ret_ty()
+            lo_, hi_ = int_range(t)
+            e = Lin.var(name)
+            c.st.sys.add_range(e, lo_, hi_)
+            c.it.purefun[name] = set(w[1].t)
+            return [(c.st, Num(e))]
         return [(c.st, c.top_ret())]
     c.it.record_write(c.st, c.deref(c.args[0]), Lin.const(0), Lin.const(n), "data")
     return [(c.st, Struct())]
